@@ -63,7 +63,7 @@ def enumerate_cases(tier, seed):
     return cases
 
 
-def build_factory(name, invert, cond, seed, level, dim=2, layers=2):
+def build_factory(name, invert, cond, seed, level, dim=2, layers=2, scale=0.5):
     import jax.random as jr
 
     import flowjax.bijections as B
@@ -96,7 +96,7 @@ def build_factory(name, invert, cond, seed, level, dim=2, layers=2):
         d = flows.triangular_spline_flow(key, base_dist=base, cond_dim=cond, flow_layers=layers, knots=3, invert=invert)
     else:
         raise KeyError(name)
-    return perturb(d, level, seed, scale=0.5)
+    return perturb(d, level, seed, scale=scale)
 
 
 def factory_info(name, invert, cond, dim=2):
